@@ -117,20 +117,23 @@ def check_delivery(E, rec, k, info, label, **fk):
     E.prove(label + ':unit-id', E.get(m, 'unit_id') == info['uid'], **fk)
 
 
-def step(kind):
+def step(kind, alone=False):
+    """alone: nothing follows the frame (used by C09: every well-formed request frame, however short its body, reaches execute once)"""
     def lemma(E):
         rec = F.Rec()
         v, info = valid_frame(E, kind)
         # symbolic: arbitrary remainder, later iterations cut; the concrete twin cannot stop the real loop after one iteration and uses an empty remainder
-        r = E.bytes('remainder', 0, 40) if E.mode == 'symbolic' else E.bytes('remainder', 0, 0)
+        r = E.bytes('remainder', 0, 40) if (E.mode == 'symbolic' and not alone) else E.bytes('remainder', 0, 0)
         f = receiver(E, kind, rec, [v, r])
         cb = E.callback(F.callback(E, rec), 'callback')
-        fk = {'finding': 'C06-F3', 'region': L.length(r) > 0} if kind == 'rtu' else {}
+        fk = {'finding': 'C06-F3', 'region': L.length(r) > 0} if (kind == 'rtu' and not alone) else {}
         out = E.attempt(lambda: E.method(f, 'processIncomingPacket', E.as_bytes(L.concat(v, r)), cb, [info['uid']], single=False), allow_cut=True)
         E.prove('step:no-exception', out.ok, **fk)
         if not out.ok:
             return
         E.prove('step:the-frame-at-the-head-is-delivered-first', len(rec.delivered) >= 1, **fk)
+        if alone:
+            E.prove('step:delivered-exactly-once', len(rec.delivered) == 1)
         if rec.delivered:
             check_delivery(E, rec, 0, info, 'step')
             if len(rec.delivered) == 1:
